@@ -331,3 +331,98 @@ def rule_rv(ctx, R, arch):
                 undecided.append('%s: %s' % (inst, ', '.join(maybe)))
     if undecided:
         R.note('%s does not decide registers that only generated code could read after the call: %s' % (rid, ' | '.join(sorted(set(undecided))[:4])))
+
+
+# ---------------------------------------------------------------------------------------------------------------------------
+# [*-RT-STOREORDER]  specification 4.6.2: r0-r7 are written (step 9) before f0-f3 (step 11); the two scratchpad lines can coincide
+def rule_store_order(ctx, R, arch):
+    rid = {'a64': 'A64-RT-STOREORDER', 'rv64': 'RV-RT-STOREORDER'}[arch]
+    cfg = RT_PROGRAM[arch]
+    R.rule(rid, 'at the end of an iteration the hand-written runtime stores the eight VM integer registers to the scratchpad before it stores the four f registers (specification 4.6.2 steps 9 and 11: the two '
+           'addresses can select the same line, which must then hold f0-f3), through two different base registers: the static text is followed from the store of the integer registers to the branch that closes the loop, '
+           'for each variant of the piece the generator can copy', min_instances=2)
+    P = rtasm.Prog(ctx.obj(cfg['obj']), cfg['isa'])
+    R.saw(unit=cfg['src'], config=cfg['config'])
+    if arch == 'a64':
+        F, regmap, lit = _a64_tables(ctx)
+        vm = {'x%d' % r for r in regmap}
+        starts = [('randomx_program_aarch64_update_spMix1', 'hardware AES / v1')]
+        stop = {P.sym('randomx_program_aarch64_main_loop'), P.sym('randomx_program_aarch64_vm_instructions_end_light')}
+        isf = lambda r: r.startswith('v')
+        variants = [('', {})]
+        # the software-AES variant: the generator turns the instruction at v2_FE_mix into a branch to the soft-AES piece
+        variants.append(('software AES', {P.sym('randomx_program_aarch64_v2_FE_mix'): P.sym('randomx_program_aarch64_v2_FE_mix_soft_aes')}))
+        variants.append(('hardware AES v2', {P.sym('randomx_program_aarch64_v2_FE_mix'): P.sym('randomx_program_aarch64_v2_FE_mix') + 4}))
+        begin = P.sym('randomx_program_aarch64_update_spMix1')
+    else:
+        vm = _rv_vm_registers(ctx, 'rv64')
+        isf = lambda r: r.startswith('f')
+        stop = {P.sym('randomx_riscv64_loop_end')}
+        variants = [('', {})]
+        begin = None
+    runs = []
+    if arch == 'a64':
+        for tag, redirect in variants:
+            runs.append((tag or 'v1', begin, redirect))
+    else:
+        runs.append(('plain', P.sym('randomx_riscv64_spad_store'), {}))
+        runs.append(('software AES', P.sym('randomx_riscv64_spad_store_softaes'), {}))
+        stop = {P.sym('randomx_riscv64_loop_end'), P.sym('randomx_riscv64_spad_store_softaes')}
+    for tag, a0, redirect in runs:
+        # walk in execution order
+        order, a, n = [], a0, 0
+        stack = []
+        seen_stop = False
+        while n < 4000:
+            n += 1
+            if a in redirect:
+                a = redirect[a]
+                continue
+            if a in stop and n > 1 and not (arch == 'rv64' and a == a0):
+                break
+            i = P.ins.get(a)
+            if i is None or i.kind == 'data':
+                break
+            if i.kind == 'store':
+                order.append(i)
+            if i.kind == 'ret':
+                if stack:
+                    a = stack.pop()
+                    continue
+                break
+            if i.kind == 'jump':
+                if i.target not in P.ins:
+                    break
+                a = i.target
+                continue
+            if i.kind == 'call' and i.target in P.ins:
+                stack.append(P.nxt(i))
+                a = i.target
+                continue
+            if i.kind == 'cbranch' and i.target is not None and i.target <= a0 and not stack:
+                break               # the branch that closes the loop
+            a = P.nxt(i)
+        sp = 'sp' if arch == 'a64' else 'x2'
+
+        def base_of(i):
+            mo = [o for o in i.ops if '[' in o or '(' in o]
+            rs = (rtasm.a64_regs_in(mo[0]) if arch == 'a64' else rtasm.rv_regs_in(mo[0])) if mo else []
+            return rs[0] if rs else None
+
+        def data_of(i):
+            b = base_of(i)
+            return [r for r in i.uses if r != b]
+        ints = [(k, i) for k, i in enumerate(order) if base_of(i) != sp and data_of(i) and all(r in vm for r in data_of(i))]
+        bi0 = {base_of(i) for _, i in ints}
+        # the f registers are stored through the other address register: directly (A64 q registers) or after a move to integer temporaries (RV64)
+        fps = [(k, i) for k, i in enumerate(order) if base_of(i) != sp and base_of(i) not in bi0 and data_of(i) and not any(r in vm for r in data_of(i))]
+        where = '%s:%s' % (cfg['src'], P.name_at(a0))
+        got_i = {r for _, i in ints for r in data_of(i)}
+        inst = '%s piece' % tag
+        if got_i != vm or not fps:
+            R.violation(inst, where, expected='stores of all eight VM integer registers and of the f registers on the way to the end of the loop', found='integer registers stored: %s; floating-point stores: %d' % (sorted(got_i), len(fps)))
+            continue
+        bi, bf = {base_of(i) for _, i in ints}, {base_of(i) for _, i in fps}
+        ok = max(k for k, _ in ints) < min(k for k, _ in fps) and not (bi & bf)
+        R.check(ok, inst, where, expected='every integer-register store (through %s) before every f-register store (through %s)' % (sorted(bi), sorted(bf)),
+                found='last integer store at %s, first f store at %s' % (P.name_at(max(ints)[1].addr), P.name_at(min(fps)[1].addr)))
